@@ -7,7 +7,7 @@ CODEC_TB = ["hash/crc32 is modelled by Rscp.Crc.crc32 (validated on every run by
 
 PROPS = {
     "C01": dict(
-        lean=["Rscp.Props.C01", "Rscp.Tie.Reader", "Rscp.Tie.Writer", "Rscp.Tie.Validate"],
+        lean=["Rscp.Props.C01", "Rscp.Props.C01a", "Rscp.Tie.Reader", "Rscp.Tie.Writer", "Rscp.Tie.Validate"],
         streams=[dict(name="rt", quick=400, thorough=6000, thorough_seeds=3)],
         trusted_base=CODEC_TB + ["block cipher: parameter with hypothesis D(E(b)) = b (Rijndael-256 itself is not modelled)",
                                  "time.Time ↔ (Unix(), Nanosecond()) conversion of the Go runtime"],
@@ -26,12 +26,44 @@ PROPS = {
     ),
     "C04": dict(
         lean=["Rscp.Props.C04", "Rscp.Tie.Reader", "Rscp.Tie.Writer"],
+        audit_extra=["Rscp.Crc.burst_detected", "Rscp.Crc.one_two_bits_detected", "Rscp.Crc.period_exact"],
         streams=[dict(name="bits", quick=60, thorough=600, thorough_seeds=2, oracle_ops=["spec "])],
         trusted_base=CODEC_TB + ["Mathlib (Nat.Prime facts) in Rscp/Lemmas/CrcOrder.lean only"],
     ),
     "C05": dict(
-        lean=["Rscp.Props.C05", "Rscp.Tie.Validate", "Rscp.Tie.Writer"],
-        streams=[dict(name="val", quick=1500, thorough=20000, thorough_seeds=2)],
-        trusted_base=CODEC_TB,
+        lean=["Rscp.Props.C05", "Rscp.Tie.Validate", "Rscp.Tie.Writer", "Rscp.Tie.Client"],
+        streams=[dict(name="val", quick=600, thorough=20000, thorough_seeds=2),
+                 dict(name="send", quick=250, thorough=5000, thorough_seeds=2)],
+        trusted_base=CODEC_TB + ["the socket layer: Client.send's conn.Write is observed through an in-memory net.Conn attached by the verif hook"],
+    ),
+    "C06": dict(
+        lean=["Rscp.Props.C06", "Rscp.Tie.Crypt", "Rscp.Tie.Client"],
+        streams=[dict(name="cfg", quick=100, thorough=3000, thorough_seeds=2),
+                 dict(name="tcp", quick=128, thorough=1500, thorough_seeds=3)],
+        trusted_base=["Rijndael-256 (github.com/azihsoyn/rijndael256) and crypto/cipher's CBC: parameters; the theorems hold for every block cipher with D(E(b)) = b",
+                      "the independent peer of the harness (own key padding, IV, chaining, frame parser) decides decryptability on real loopback TCP"],
+    ),
+    "C07": dict(
+        lean=["Rscp.Props.C07", "Rscp.Tie.Client", "Rscp.Tie.Reader"],
+        streams=[dict(name="seg", quick=35, thorough=600, thorough_seeds=2)],
+        trusted_base=CODEC_TB + ["conn.Read semantics: returns 1..len(buf) bytes of what was delivered (scripted net.Conn attached by the verif hook)",
+                                 "CBC decryption commutes with block-aligned cutting (C06.cbc_chunking), so the loop is modelled on the plaintext stream"],
+    ),
+    "C08": dict(
+        lean=["Rscp.Props.C08", "Rscp.Tie.Client"],
+        streams=[dict(name="hist", quick=250, thorough=5000, thorough_seeds=3)],
+        trusted_base=["token-level abstraction of the byte stream: one well-formed reply frame = one token (justified by C03 chunking and C07)",
+                      "peer assumption of the property: the peer answers each request it receives once and in order"],
+    ),
+    "C09": dict(
+        lean=["Rscp.Props.C09", "Rscp.Tie.Client"],
+        streams=[dict(name="hist", quick=250, thorough=5000, thorough_seeds=3),
+                 dict(name="auth", quick=1, thorough=1)],
+        trusted_base=["token-level abstraction of the byte stream (as C08)"],
+    ),
+    "C16": dict(
+        lean=["Rscp.Props.C16", "Rscp.Tie.Config", "Rscp.Tie.Crypt"],
+        streams=[dict(name="cfg", quick=300, thorough=20000, thorough_seeds=2)],
+        trusted_base=["Go type assertion on the UseChecksum interface value modelled as a three-way case (nil / bool / other type)"],
     ),
 }
